@@ -1450,9 +1450,9 @@ shutwait:
 	// a failed batch must be acknowledged before any later point of one of its series is
 	retries, retriesCut, fails := 0, 0, 0
 	kinds := map[string]bool{}
-	lastFail := map[pt]*reqRec{} // first point of a batch -> its last failed attempt
+	lastFail := map[pt]*reqRec{} // first point of a batch -> its last failed attempt (in arrival order)
 	for _, f := range evs {
-		if !f.Out.ack() && len(f.Pts) > 0 {
+		if !f.Out.ack() && len(f.Pts) > 0 && (lastFail[f.Pts[0]] == nil || f.N > lastFail[f.Pts[0]].N) {
 			lastFail[f.Pts[0]] = f
 		}
 	}
@@ -1532,6 +1532,9 @@ shutwait:
 					st.add("posts_non2xx_body_1MiB_or_more_written_in_full", 1)
 				}
 			}
+			if r.Out.Pad >= 1<<20 {
+				st.add("posts_answered_body_1MiB_or_more", 1)
+			}
 			if r.Out.Pad > 1<<20 && r.Out.Frame == fLength {
 				if r.Out.ack() {
 					st.add("posts_2xx_content_length_over_1MiB", 1)
@@ -1601,10 +1604,12 @@ func lastSeen(missing []pt, evs []*reqRec) (string, []string) {
 	for _, p := range missing {
 		miss[p] = true
 	}
+	// the last one in arrival order: the attempts of one batch arrive one after the other (the server may decide them
+	// in another order when a handler is starved past the client's timeout)
 	last := map[pt]*reqRec{}
-	for _, r := range evs { // event order: the last one wins
+	for _, r := range evs {
 		for _, p := range r.Pts {
-			if miss[p] {
+			if miss[p] && (last[p] == nil || r.N > last[p].N) {
 				last[p] = r
 			}
 		}
@@ -1617,7 +1622,7 @@ func lastSeen(missing []pt, evs []*reqRec) (string, []string) {
 	for r := range per {
 		rs = append(rs, r)
 	}
-	sort.Slice(rs, func(i, j int) bool { return rs[i].Ev < rs[j].Ev })
+	sort.Slice(rs, func(i, j int) bool { return rs[i].N < rs[j].N })
 	var det []string
 	for _, r := range rs {
 		det = append(det, fmt.Sprintf("request #%d answered %s (%d/%d points)", r.N, r.Out, per[r], len(r.Pts)))
@@ -1763,7 +1768,8 @@ func main() {
 		res.Floor("posts_non2xx_body_incomplete", m["posts_non2xx_body_incomplete"], n/2)
 		res.Floor("non2xx_body_incomplete_later_acknowledged", m["non2xx_body_incomplete_later_acknowledged"], n/4)
 		res.Floor("posts_2xx_body_incomplete", m["posts_2xx_body_incomplete"], n/4)
-		res.Floor("posts_non2xx_content_length_over_1MiB", m["posts_non2xx_content_length_over_1MiB"], n/60)
+		res.Floor("posts_answered_body_1MiB_or_more", m["posts_answered_body_1MiB_or_more"], n/12)
+		res.Floor("posts_non2xx_content_length_over_1MiB", m["posts_non2xx_content_length_over_1MiB"], n/100) // rare: a floor for the thorough tier only
 		res.Floor("shutdown_calls", m["shutdown_calls"], n*9/10)
 		res.Floor("cases_shutdown_with_unacked_pending", m["cases_shutdown_with_unacked_pending"], n/5)
 		res.Floor("cases_with_counted_drops", m["cases_with_counted_drops"], n/20)
